@@ -367,6 +367,8 @@ def to_sparse(M, fmt):
             assert np.array_equal(A.toarray(), M)
             return A
         return spa.dia_matrix(M)
+    if fmt.endswith("_array"):          # scipy's sparse ARRAY classes: issparse() is true, isspmatrix_*() is false
+        return getattr(spa, fmt)(M)
     return getattr(spa, fmt + "_matrix")(M)
 
 
@@ -848,6 +850,8 @@ def build_gmrf(meta):
     else:
         mean = float(mean)
         kw.setdefault("geometry", n)
+    if meta.get("defaults"):
+        return quiet(cuqi.distribution.GMRF, mean, meta["prec"], **kw)         # bc_type, order at their shipped defaults
     return quiet(cuqi.distribution.GMRF, mean, meta["prec"], bc, order=order, **kw)
 
 
@@ -982,6 +986,12 @@ def gmrf_case(ctx, meta, n1_states=None):
                 "logd: |H C H - H|/|H| = %.3g" % (bc, meta["order"], n, " 2-d" if meta.get("two_d") else "", defect))
         sig = SIG_PER if (proto == "dft" and meta["order"] >= 1) else "GMRF._sample|covariance:%s:order%d" % (bc, meta["order"])
     cell = "gmrf/%s/order%d/%s" % (bc, meta["order"], "2d" if meta.get("two_d") else "1d")
+    if meta.get("defaults"):
+        cell = "L22-defaults/gmrf"
+        twin = build_gmrf(dict(meta, defaults=False))           # bc_type="zero", order=1 spelled out (the documented defaults)
+        a = np.asarray(quiet(d.sample, 3, rng=np.random.RandomState(2)).samples); b = np.asarray(quiet(twin.sample, 3, rng=np.random.RandomState(2)).samples)
+        if not fail and not np.allclose(a, b, rtol=1e-12, atol=1e-12):
+            fail, sig = "GMRF(mean, prec) with bc_type/order left at their defaults does not draw like GMRF(mean, prec, 'zero', order=1)", "GMRF|defaults"
     out = [Case(expr=expr, meta=meta, cell=cell, kind="EXACT", impl_fail=fail, signature=sig)]
     # one draw (N = 1) through _sample and through sample
     z = np.array(meta["z"][:ncalls * m], dtype=float)
@@ -1240,6 +1250,11 @@ def build_named(spec):
         return D.UserDefinedDistribution(dim=dim, logpdf_func=lambda x: -0.5 * np.sum(x ** 2), sample_func=f)
     if nm == "Gallery":
         return D.DistributionGallery(a[0])
+    if nm == "Conditioned":            # a conditional distribution conditioned on all its variables (a copy made by _condition)
+        d, steps = quiet(build_cond, a[0])
+        for kw in steps:
+            d = quiet(d, **kw)
+        return d
     raise ValueError(nm)
 
 
@@ -1364,8 +1379,17 @@ def wrapper_defect_case(ctx, meta):
                 signature=meta["sig"] if fail else "")
 
 
-COND_SPECS = ["gauss_cov", "gauss_prec", "gauss_mean_cov", "normal_mean", "normal_std_none", "gamma_rate", "gmrf_prec", "laplace_loc",
+COND_SPECS = ["gauss_name_coincidence", "gauss_all_defaults", "gauss_cov", "gauss_prec", "gauss_mean_cov", "normal_mean", "normal_std_none", "gamma_rate", "gmrf_prec", "laplace_loc",
               "uniform_high_none", "beta_fun"]
+
+
+COND_EXPECT = {     # what the fully conditioned object must be, by the documented meaning of callable parameters
+    "gauss_name_coincidence": lambda D: D.Gaussian(np.zeros(2), cov=6.0),        # cov = (lambda cov: 2*cov)(3.0)
+    "gauss_cov": lambda D: D.Gaussian(np.zeros(2), cov=2.0), "gauss_prec": lambda D: D.Gaussian(np.zeros(2), prec=2.0),
+    "gauss_mean_cov": lambda D: D.Gaussian(np.ones(2), cov=2.0), "normal_mean": lambda D: D.Normal(mean=1.0, std=1.0),
+    "gamma_rate": lambda D: D.Gamma(shape=2.0, rate=2.0), "beta_fun": lambda D: D.Beta(2.0, 2.0),
+    "gauss_all_defaults": lambda D: D.Gaussian(np.zeros(2), cov=2.0),
+}
 
 
 def build_cond(name):
@@ -1373,6 +1397,10 @@ def build_cond(name):
     D = cuqi.distribution
     z2 = np.zeros(2)
     return {
+        # L17: the conditioning variable is NAMED like the attribute it enters through a non-identity callable
+        "gauss_name_coincidence": lambda: (D.Gaussian(z2, cov=lambda cov: 2 * cov), [{"cov": 3.0}]),
+        # L22: every constructor argument at its shipped default (only the geometry is given)
+        "gauss_all_defaults": lambda: (D.Gaussian(geometry=2), [{"mean": z2}, {"cov": 2.0}]),
         "gauss_cov": lambda: (D.Gaussian(z2, cov=lambda s: s), [{"s": 2.0}]),
         "gauss_prec": lambda: (D.Gaussian(z2, prec=lambda d: d), [{"d": 2.0}]),
         "gauss_mean_cov": lambda: (D.Gaussian(lambda m: m * np.ones(2), cov=lambda s: s, geometry=2), [{"m": 1.0}, {"s": 2.0}]),
@@ -1420,6 +1448,18 @@ def conditional_case(ctx, meta):
     exprs = ["check_wrap %s %s (Raw1 []) %s" % (cbool(ic), cnat(N), "WRefused" if rf else "(WArray [])") if (ic or rf) else "true"
              for ic, rf, _, _ in results]
     fail = None
+    if meta["name"] in COND_EXPECT and not results[-1][1]:
+        import cuqi
+        ref = quiet(COND_EXPECT[meta["name"]], cuqi.distribution)
+        a = quiet(chain[-1].sample, N, rng=np.random.RandomState(5)); b = quiet(ref.sample, N, rng=np.random.RandomState(5))
+        A = np.asarray(a if N == 1 else a.samples, dtype=float); B = np.asarray(b if N == 1 else b.samples, dtype=float)
+        x = np.ravel(B if N == 1 else B[:, 0])
+        if not np.array_equal(A, B):
+            fail = ("%s: after conditioning, the draws differ from those of the distribution the callables define (same generator state): %s vs %s"
+                    % (meta["name"], A.tolist(), B.tolist()))
+        elif abs(float(np.ravel(chain[-1].logd(x))[0]) - float(np.ravel(ref.logd(x))[0])) > 1e-9:
+            fail = "%s: after conditioning, logd differs from that of the distribution the callables define" % meta["name"]
+        exprs.append(cbool(fail is None))
     for k, (ic, rf, msg, sv) in enumerate(results):
         last = k == len(results) - 1
         if not last and not rf:
@@ -1438,6 +1478,10 @@ def conditional_case(ctx, meta):
 
 RNG_SPECS = WRAP_SPECS + [["GMRF", [0.0, 0.0, 0.0, 0.0], 2.0, "neumann", 1], ["GMRF", [0.0, 0.0, 0.0, 0.0], 2.0, "periodic", 1],
                           ["ModifiedHalfNormal", 128.0, 3.0, -4.0], ["UserDefined", 2, 5, True], ["UserDefined", 2, 5, "accepts_rng"]]
+RNG_SPECS += [["Conditioned", "gauss_cov"], ["Conditioned", "gauss_mean_cov"], ["Conditioned", "normal_mean"], ["Conditioned", "gamma_rate"],
+              ["Conditioned", "gmrf_prec"], ["Conditioned", "beta_fun"], ["Conditioned", "gauss_name_coincidence"]]
+COND_CLASS = {"gauss_cov": "Gaussian", "gauss_mean_cov": "Gaussian", "normal_mean": "Normal", "gamma_rate": "Gamma", "gmrf_prec": "GMRF",
+              "beta_fun": "Beta", "gauss_name_coincidence": "Gaussian"}
 CLASS_OF = {"UserDefined": ["UserDefinedDistribution"], "Gallery": ["DistributionGallery", "Gaussian"], "Lognormal": ["Lognormal", "Gaussian"]}
 
 
@@ -1514,7 +1558,7 @@ def rng_case_(ctx, meta, sites=None):
     if sites is None:
         sites, _ = tr_rngflow.extract(ctx.repo)
     spec, N, kind = meta["spec"], meta["N"], meta.get("kind", "RandomState")
-    classes = CLASS_OF.get(spec[0], [spec[0]])
+    classes = CLASS_OF.get(spec[0], [spec[0]]) if spec[0] != "Conditioned" else [COND_CLASS[spec[1]]]
     mine = [s for s in sites if s[0].split(".")[0] in classes]
     st_saved = np.random.get_state()
     def draw(d, seed):
@@ -1557,7 +1601,7 @@ def rng_case_(ctx, meta, sites=None):
                                                          "different" if depends else "IDENTICAL (the generator is ignored)"))
         sig = SIG_UDD if spec[0] == "UserDefined" else "%s._sample|rng-isolation" % spec[0]
     meta2 = dict(meta); meta2["global_path_uses_global_state"] = bool(global_used); meta2["refused"] = a if refused else None
-    return Case(expr=expr, meta=meta2, cell="rng/%s/%s%s" % (spec[0], kind, "/refused" if refused else ""), kind="DECISION",
+    return Case(expr=expr, meta=meta2, cell="rng/%s/%s%s" % (spec[0] if spec[0] != "Conditioned" else "L16-conditioned:" + spec[1], kind, "/refused" if refused else ""), kind="DECISION",
                 impl_fail=fail, signature=sig)
 
 
@@ -2101,6 +2145,387 @@ def history_cases(ctx, cases):
 
 
 # ------------------------------------------------------------------------------------------------
+# round-4 lessons (L14 .. L26): cell families
+# ------------------------------------------------------------------------------------------------
+def gauss_observe(d, n, expect_mean=None, fresh=None, iface="rng", hstep=1.0):
+    """(coq expression, failure or None) for one Gaussian-like object in its present state: the model on the stored square root,
+    the covariance implied by its own logd, optionally bit-for-bit agreement with a fresh object"""
+    import scipy.sparse as spa
+    off, T, _ = read_affine(d, n, 1, iface)
+    S = dense(d.sqrtprec)
+    sparse = bool(spa.issparse(d.sqrtprec))
+    mean = np.atleast_1d(np.asarray(d.mean, dtype=float))
+    bm = np.repeat(mean, n) if len(mean) == 1 else mean
+    expr = "check_gauss %s %s %s %s %s" % (cbool(sparse), cqv(mean if expect_mean is None else np.asarray(expect_mean, dtype=float)),
+                                          cqm(S), cqv(off), cqm(T))
+    H = hessian_of_logd(d, n, center=bm, step=hstep)
+    defect, tol = cov_defect(H, T, 1e-6)
+    fail = None
+    if expect_mean is not None and not np.array_equal(off, np.asarray(expect_mean, dtype=float)):
+        fail = "offset of the draws %s is not the expected mean %s" % (off, list(np.asarray(expect_mean)))
+    elif not np.allclose(off, bm, atol=1e-12 * (1 + float(np.abs(bm).max()))):
+        fail = "offset of the draws is not the object's mean"
+    elif defect > tol:
+        fail = "covariance of the draws does not follow the object's own logd (|HCH-H|/|H| = %.3g)" % defect
+    elif fresh is not None:
+        off2, T2, _ = read_affine(fresh, n, 1, iface)
+        Hf = hessian_of_logd(fresh, n, center=bm, step=hstep)
+        if not (np.array_equal(off, off2) and np.array_equal(T, T2)):
+            fail = "draws differ from those of a fresh object built with the same parameters"
+        elif not np.allclose(H, Hf, atol=1e-9 * max(1.0, float(np.abs(Hf).max()))):
+            fail = "logd differs from that of a fresh object built with the same parameters"
+    return expr, fail
+
+
+@failing_input('Distribution')
+def lifecycle_case(ctx, meta):
+    """L14: the refusal clause in every life-cycle state of ONE object.  `expected` (conditional or not) is the scenario's
+    ground truth, never read from the object."""
+    import cuqi
+    D = cuqi.distribution
+    N = meta["N"]
+    z2 = np.zeros(2)
+    G = D.Gaussian(z2, cov=lambda s: s) if meta["kind"] == "gauss" else D.Normal(mean=lambda m: m, std=1.0)
+    key = "s" if meta["kind"] == "gauss" else "m"
+    attr = "cov" if meta["kind"] == "gauss" else "mean"
+    states = []            # (label, object, expected_conditional)
+    def attempt(label, obj, expected_cond):
+        try:
+            w = quiet(obj.sample, N, rng=np.random.RandomState(1))
+            refused, sv = False, shape_verdict(obj, w, N)
+        except ValueError as e:
+            refused, sv = True, None
+        states.append((label, expected_cond, refused, sv))
+    attempt("fresh", G, True)
+    attempt("after a refused call", G, True)
+    c = quiet(G, **{key: 2.0})
+    attempt("original after conditioning a copy", G, True)
+    attempt("the conditioned copy", c, False)
+    attempt("original after the copy was sampled", G, True)
+    try:
+        quiet(G.logd, np.zeros(2) if meta["kind"] == "gauss" else 0.5, **{key: 2.0})
+    except Exception:
+        pass
+    attempt("original after logd(x, %s=2)" % key, G, True)
+    setattr(G, attr, 2.0)
+    attempt("after assigning a number to %s" % attr, G, False)
+    attempt("again", G, False)
+    setattr(G, attr, (lambda s: s) if meta["kind"] == "gauss" else (lambda m: m))
+    attempt("after assigning a callable to %s again" % attr, G, True)
+    setattr(G, attr, None)
+    attempt("after assigning None to %s" % attr, G, True)
+    exprs = ["check_wrap %s %s (Raw1 []) %s" % (cbool(ec), cnat(N), "WRefused" if rf else "(WArray [])") if (ec or rf) else "true"
+             for _, ec, rf, _ in states]
+    fail = None
+    for label, ec, rf, sv in states:
+        if ec and not rf:
+            fail = "%s: sampling was not refused although a conditioning variable is missing" % label
+        elif not ec and rf:
+            fail = "%s: sampling is refused although every conditioning variable is given" % label
+        elif sv:
+            fail = "%s: %s" % (label, sv)
+        if fail:
+            break
+    return Case(expr=" && ".join(exprs), meta=meta, cell="L14-lifecycle/%s" % meta["kind"], kind="DECISION", impl_fail=fail,
+                signature="Distribution.sample|conditional-lifecycle" if fail else "")
+
+
+@failing_input('Gaussian')
+def alias_time_case(ctx, meta):
+    """L15: the distribution keeps references to the caller's arrays; the caller overwrites them IN PLACE between draws.  After
+    every overwrite sampler and logd must still describe the same law (both read the same array), sampling must never write into
+    the caller's arrays (scipy solves work in place on float64 column-major arrays), and a draw must not depend on earlier draws."""
+    import cuqi
+    n = meta["dim"]
+    order = meta["order"]
+    S = np.array(meta["S"], dtype=float, order=order)
+    mu = np.array(meta["mean"], dtype=float)
+    d = quiet(cuqi.distribution.Gaussian, mu, sqrtprec=S)
+    exprs, fail = [], None
+    keepS, keepmu = S.copy(), mu.copy()
+    e1, f1 = gauss_observe(d, n, expect_mean=keepmu, iface=meta["iface"])
+    exprs.append(e1); fail = fail or f1
+    quiet(d.sample, 3, rng=np.random.RandomState(0)); quiet(d.sample, 1, rng=np.random.RandomState(0))
+    if not (np.array_equal(S, keepS) and np.array_equal(mu, keepmu)):
+        fail = fail or "sampling wrote into the arrays the caller handed to the constructor (%s-ordered float64 sqrtprec)" % order
+    e2, f2 = gauss_observe(d, n, expect_mean=keepmu, iface=meta["iface"])
+    exprs.append(e2); fail = fail or (("second read-off: " + f2) if f2 else None)
+    mu[:] = np.array(meta["mean2"], dtype=float)             # the caller re-uses its arrays
+    if meta.get("S2") is not None:
+        S[...] = np.array(meta["S2"], dtype=float)
+    e3, f3 = gauss_observe(d, n, expect_mean=np.array(meta["mean2"], dtype=float), iface=meta["iface"])
+    exprs.append(e3); fail = fail or (("after the caller overwrote its arrays in place: " + f3) if f3 else None)
+    return Case(expr=" && ".join(exprs), meta=meta, cell="L15-alias-over-time/gaussian-%s" % order, kind="EXACT", impl_fail=fail,
+                signature="Gaussian._sample|aliasing-over-time" if fail else "")
+
+
+@failing_input(lambda m: m.get('family'))
+def alias_time_uni_case(ctx, meta):
+    """L15 for the univariate families that store the caller's arrays as they are (Normal, Laplace, Uniform): overwrite in place,
+    the next generator call and the logpdf must both see the new numbers"""
+    fam, n, N = meta["family"], meta["dim"], meta["N"]
+    import cuqi
+    arrs = [np.array(p, dtype=float) for p in meta["params"]]
+    d = quiet(getattr(cuqi.distribution, fam), *arrs)
+    c1 = wiring_case(ctx, dict(meta, op="wiring"), dist=d)
+    for a, new in zip(arrs, meta["params2"]):
+        a[:] = np.array(new, dtype=float)
+    c2 = wiring_case(ctx, dict(meta, op="wiring", params=meta["params2"]), dist=d)
+    fail = c1.impl_fail or (("after the caller overwrote the parameter arrays in place: " + c2.impl_fail) if c2.impl_fail else None)
+    return Case(expr="(%s) && (%s)" % (c1.expr, c2.expr), meta=meta, cell="L15-alias-over-time/%s" % fam, kind="EXACT", impl_fail=fail,
+                signature="%s._sample|aliasing-over-time" % fam if fail else "")
+
+
+@failing_input('Gaussian')
+def zeros_case(ctx, meta):
+    """L18: exact zeros inside otherwise generic data (means like [0, 2], block-decoupled matrices whose factors have exact
+    structural zeros), every parameterisation, dense and sparse"""
+    import cuqi
+    n = meta["dim"]
+    d = build_gaussian(meta)
+    fresh = None
+    expr, fail = gauss_observe(d, n, expect_mean=np.array(meta["mean"], dtype=float), iface=meta["iface"])
+    Hin = input_precision(meta, n)
+    if not fail and Hin is not None:
+        H = hessian_of_logd(d, n, center=np.array(meta["mean"], dtype=float))
+        if float(np.abs(H - Hin).max()) > 1e-6 * float(np.abs(Hin).max()):
+            fail = "logd is not the Gaussian log-density of the given (block-decoupled) parameters"
+    return Case(expr=expr, meta=meta, cell="L18-exact-zeros/%s:%s%s" % (meta["form"], meta["shape"], "[%s]" % meta["sparse_format"] if meta.get("sparse_format") else ""),
+                kind="EXACT", impl_fail=fail, signature="Gaussian._sample|exact-zeros" if fail else "")
+
+
+@failing_input('UserDefinedDistribution')
+def udd_buffer_case(ctx, meta):
+    """L19: a user sample_func that fills and returns ONE reused work buffer, a non-contiguous view, a Fortran-ordered column or a
+    CUQIarray: column j of sample(N) must hold the j-th vector the function produced"""
+    import cuqi
+    from cuqi.array import CUQIarray
+    dim, N, style = meta["dim"], meta["N"], meta["style"]
+    produced = []
+    buf = np.zeros(dim)
+    big = np.zeros(2 * dim)
+    state = {"k": 0}
+    def f():
+        state["k"] += 1
+        v = np.array([state["k"] * 10 + i + 0.25 for i in range(dim)])
+        produced.append(v.copy())
+        if style == "buffer":
+            buf[:] = v
+            return buf
+        if style == "strided":
+            big[::2] = v
+            return big[::2]
+        if style == "cuqiarray":
+            return CUQIarray(v.copy())
+        if style == "column-F":
+            return np.asfortranarray(v.reshape(dim, 1))
+        return v
+    d = cuqi.distribution.UserDefinedDistribution(dim=dim, logpdf_func=lambda x: -0.5 * np.sum(x ** 2), sample_func=f)
+    try:
+        w = quiet(d.sample, N)
+    except ValueError as e:
+        if style == "column-F" and N > 1:       # (dim, 1) results are outside what `out[:, i] = f()` accepts: a refusal
+            return Case(expr="true", meta=meta, cell="L19-user-buffers/refused", trivial=True, kind="DECISION")
+        raise
+    got = np.asarray(w, dtype=float).reshape(dim, 1) if N == 1 else np.asarray(w.samples, dtype=float)
+    want = np.column_stack(produced[-N:])
+    fail = shape_verdict(d, w, N)
+    if not fail and not np.array_equal(got, want):
+        fail = "sample(%d) with a sample_func returning %s: columns %s are not the vectors the function produced %s" % (N, style, got.tolist(), want.tolist())
+    expr = "check_wrap false %s %s %s" % (cnat(N), enc_raw(want if N > 1 else want.ravel()), enc_wrapped(w))
+    return Case(expr=expr, meta=meta, cell="L19-user-buffers/%s" % style, kind="EXACT", impl_fail=fail,
+                signature="UserDefinedDistribution._sample|user-buffer" if fail else "")
+
+
+@failing_input(lambda m: m.get('cls'))
+def int_twin_case(ctx, meta):
+    """L20 / L23: the same numbers given as integers (python ints, integer arrays) or as CUQIarray (an ndarray subclass) must give
+    the same draws, under the same generator state, as the float64 ndarray twin -- and a consistent density"""
+    import cuqi
+    from cuqi.array import CUQIarray
+    D = cuqi.distribution
+    cls, style = meta["cls"], meta["style"]
+    def conv(v):
+        if isinstance(v, list):
+            a = np.array(v, dtype=float)
+            return a.astype(int) if style == "int" else CUQIarray(a) if style == "cuqiarray" else a
+        return int(v) if (style == "int" and float(v).is_integer()) else float(v)
+    args = meta["args"]
+    def mk(convert):
+        a = [convert(v) for v in args]
+        if cls == "GMRF":
+            return quiet(D.GMRF, a[0], a[1], meta.get("bc", "zero"))
+        return quiet(getattr(D, cls), *a)
+    d, t = mk(conv), mk(lambda v: np.array(v, dtype=float) if isinstance(v, list) else float(v))
+    N = meta["N"]
+    seed = meta["seed"]
+    a = quiet(d.sample, N, rng=np.random.RandomState(seed)); b = quiet(t.sample, N, rng=np.random.RandomState(seed))
+    A = np.asarray(a if N == 1 else a.samples, dtype=float); B = np.asarray(b if N == 1 else b.samples, dtype=float)
+    raw = np.asarray(quiet(d._sample, N, rng=np.random.RandomState(seed)), dtype=float)
+    fail = shape_verdict(d, a, N)
+    if not fail and not (A.shape == B.shape and np.array_equal(A, B)):
+        fail = "%s with %s parameters %s draws %s, its float64 twin draws %s under the same generator state" % (cls, style, args, A.tolist(), B.tolist())
+    if not fail:
+        x = np.ravel(B if N == 1 else B[:, 0])
+        la, lb = float(np.ravel(d.logd(x))[0]), float(np.ravel(t.logd(x))[0])
+        if not (abs(la - lb) <= 1e-9 * (1 + abs(lb))):
+            fail = "%s with %s parameters: logd %r differs from the float64 twin's %r" % (cls, style, la, lb)
+    expr = "check_wrap false %s %s %s" % (cnat(N), enc_raw(raw), enc_wrapped(a))
+    return Case(expr=expr, meta=meta, cell="L20-L23-twins/%s/%s" % (cls, style), kind="EXACT", impl_fail=fail,
+                signature="%s._sample|%s-parameters" % (cls, style) if fail else "")
+
+
+@failing_input(lambda m: m.get('kind'))
+def shallow_copy_case(ctx, meta):
+    """L25: two instances alive at once that may share an inner mutable object (copy.copy, conditioned copies); the FIRST is
+    evaluated after the second was created, re-assigned and sampled"""
+    import cuqi, copy
+    D = cuqi.distribution
+    kind, n = meta["kind"], 2
+    m1, m2 = np.array(meta["m1"], dtype=float), np.array(meta["m2"], dtype=float)
+    c1, c2 = float(meta["c1"]), float(meta["c2"])
+    z = np.array(meta["z"], dtype=float)
+    exprs, fail = [], None
+    if kind == "Lognormal":
+        d1 = quiet(D.Lognormal, m1.copy(), c1)
+        d2 = copy.copy(d1); d2.mean = m2.copy(); d2.cov = c2
+        def draw(d):
+            return np.log(np.asarray(quiet(d._sample, 1, NormalScript([z.reshape(n, 1)])), dtype=float).ravel())
+        s2 = draw(d2); s1 = draw(d1); s2b = draw(d2)
+        for (s, m, c, lab) in ((s2, m2, c2, "the copy"), (s1, m1, c1, "the original, evaluated after the copy was re-assigned and sampled"),
+                               (s2b, m2, c2, "the copy again")):
+            g = quiet(D.Gaussian, m.copy(), c)
+            off, T, _ = read_affine(g, n, 1, "rng")
+            exprs.append("check_lognormal %s %s %s %s" % (cqv(off), cqm(T), cqv(z), cqv(s)))
+            if not np.allclose(s, m + z * math.sqrt(c), atol=1e-9):
+                fail = fail or "%s: ln(draw) = %s, expected mean + sqrt(cov) z = %s" % (lab, s.tolist(), (m + z * math.sqrt(c)).tolist())
+        for d, m, c, lab in ((d1, m1, c1, "original"), (d2, m2, c2, "copy")):
+            x = np.exp(m + 0.5)
+            ref = float(np.sum(-0.5 * np.log(2 * np.pi * c) - 0.5 * (np.log(x) - m) ** 2 / c - np.log(x)))
+            got = float(np.ravel(d.logpdf(x))[0])
+            if abs(ref - got) > 1e-9 * (1 + abs(ref)):
+                fail = fail or "%s: logpdf %r is not the lognormal density of its own parameters (%r)" % (lab, got, ref)
+    else:
+        if kind == "Gaussian-conditioned":
+            G = quiet(D.Gaussian, lambda m: m * np.ones(2), cov=lambda s: s, geometry=2)
+            d1 = quiet(G, m=float(m1[0]), s=c1); d2 = quiet(G, m=float(m2[0]), s=c2)
+            m1, m2 = np.full(2, m1[0]), np.full(2, m2[0])
+        else:
+            d1 = quiet(D.Gaussian, m1.copy(), cov=c1)
+            d2 = copy.copy(d1); d2.mean = m2.copy(); d2.cov = c2
+        e2, f2 = gauss_observe(d2, n, expect_mean=m2, fresh=quiet(D.Gaussian, m2.copy(), cov=c2))
+        e1, f1 = gauss_observe(d1, n, expect_mean=m1, fresh=quiet(D.Gaussian, m1.copy(), cov=c1))
+        exprs += [e2, e1]
+        fail = (("the second instance: " + f2) if f2 else None) or (("the FIRST instance, evaluated after the second was created: " + f1) if f1 else None)
+    return Case(expr=" && ".join(exprs), meta=meta, cell="L25-shallow-copies/%s" % kind, kind="EXACT", impl_fail=fail,
+                signature="%s|shared-inner-object" % kind if fail else "")
+
+
+def lessons4_cases(ctx, cases):
+    rng = ctx.rng
+    k = 0
+    # L14
+    for kind in ("gauss", "normal"):
+        for N in (1, 3):
+            cases.append(lifecycle_case(ctx, {"op": "l4_lifecycle", "kind": kind, "N": N}))
+    # L15
+    for order in ("C", "F"):
+        for shape in ("upper", "full", "lower"):
+            k += 1
+            n = 3
+            meta = {"op": "l4_alias", "dim": n, "order": order, "S": int_matrix(rng, n, shape).tolist(), "mean": [dy(rng) for _ in range(n)],
+                    "mean2": [dy(rng) + 8 for _ in range(n)], "S2": int_matrix(rng, n, shape).tolist() if k % 2 else None,
+                    "iface": ["rng", "global", "N1"][k % 3]}
+            cases.append(alias_time_case(ctx, meta))
+    for fam in ("Normal", "Laplace", "Uniform"):
+        n, N = 3, 2
+        ps = rand_params(rng, fam, "vector", n); ps2 = rand_params(rng, fam, "vector", n)
+        if fam == "Laplace":
+            continue                                   # scalar scale is a python float: nothing to overwrite in place but the location
+        cases.append(alias_time_uni_case(ctx, {"op": "l4_alias_uni", "family": fam, "form": "vector", "dim": n, "N": N, "params": ps, "params2": ps2,
+                                               "G": [[rng.randint(1, 63) / 64 for _ in range(n)] for _ in range(N)], "iface": "rng",
+                                               "xseed": rng.randint(0, 10 ** 6)}))
+    # L18
+    n = 3
+    for form in ("sqrtprec", "cov", "prec", "sqrtcov"):
+        for fmt in (None, "csr", "dia", "csr_array", "dia_array", "coo_array"):
+            k += 1
+            B = int_matrix(rng, 2, "spd" if form in ("cov", "prec") else ["upper", "full", "lower"][k % 3])
+            M = np.zeros((3, 3)); M[:2, :2] = B; M[2, 2] = rng.choice([1.0, 4.0, 2.0])
+            if k % 2:
+                M = M[::-1, ::-1].copy()                      # the decoupled 1 x 1 block first
+            meta = {"op": "l4_zeros", "form": form, "shape": "block", "sparse_input": bool(fmt), "sparse_format": fmt, "dim": n, "value": M.tolist(),
+                    "mean": [[0.0, 2.0, 0.0], [0.0, 0.0, -1.5], [2.5, 0.0, 0.0], [0.0, 0.0, 0.0]][k % 4], "mean_kind": "vector",
+                    "iface": ["rng", "global", "N1"][k % 3]}
+            if fmt and form == "sqrtprec" and fmt.startswith("dia") is False and False:
+                pass
+            meta["may_refuse_ctor"] = bool(fmt)               # sparse SPD inputs may be refused by sparse_cholesky (see note)
+            cases.append(zeros_or_refused(ctx, meta))
+    for rep in range(3):
+        m0 = [[0.0, 2.0], [1.0, 0.0], [0.0, 0.0]][rep]
+        m1 = [m0[0], m0[1] + 1.0]; m2 = [m1[0] - 2.0, m1[1]]
+        cases.append(lognormal_history_case(ctx, {"op": "hist_lognormal", "dim": 2, "mean": m0, "cov": ("vector", [1.0, 4.0]), "z": [dy(rng, -2, 2) for _ in range(2)],
+                                                  "steps": [{"attr": "mean", "value": m1}, {"attr": "cov", "value": ("vector", [1.0, 0.25])},
+                                                            {"attr": "mean", "value": m2}, {"attr": "cov", "value": ("vector", [9.0, 0.25])}], "one_component": True}))
+    for fam in ("Normal", "Uniform", "Gamma", "InverseGamma", "Cauchy"):
+        ps = rand_params(rng, fam, "vector", 3)
+        if fam == "Normal":
+            ps[0] = [0.0, 2.0, 0.0]
+        k0 = 0 if fam != "Uniform" else 1
+        newv = list(ps[k0]); newv[1] = newv[1] + 0.5
+        cases.append(univariate_history_case(ctx, {"op": "hist_uni", "family": fam, "form": "vector", "dim": 3, "N": 2, "params": ps,
+                                                   "steps": [{"attr": UNI_ATTRS[fam][k0], "value": newv}], "G": [[rng.randint(1, 63) / 64 for _ in range(3)] for _ in range(2)],
+                                                   "iface": "rng", "xseed": rng.randint(0, 10 ** 6), "one_component": True}))
+    # L19
+    for style in ("buffer", "strided", "cuqiarray", "column-F", "fresh"):
+        for N in (1, 3):
+            cases.append(udd_buffer_case(ctx, {"op": "l4_udd", "dim": 2, "N": N, "style": style}))
+    # L20 / L23
+    twins = [("GMRF", [[0.0, 1.0, 2.0, 3.0], 4.0]), ("Lognormal", [[0.0, 1.0], [1.0, 4.0]]), ("Normal", [[0.0, 2.0, -1.0], [1.0, 2.0, 4.0]]),
+             ("Gamma", [[2.0, 4.0, 10.0], [2.0, 4.0, 10.0]]), ("InverseGamma", [[3.0, 4.0], [0.0, 1.0], [2.0, 3.0]]), ("Beta", [[2.0, 3.0], [1.0, 4.0]]),
+             ("Cauchy", [[0.0, 2.0], [1.0, 3.0]]), ("Uniform", [[0.0, 1.0], [2.0, 4.0]]), ("Laplace", [[0.0, 3.0], 2.0]),
+             ("Gaussian", [[0.0, 2.0, 1.0], [4.0, 1.0, 9.0]])]
+    for cls, args in twins:
+        for style in ("int", "cuqiarray"):
+            k += 1
+            cases.append(int_twin_case(ctx, {"op": "l4_twin", "cls": cls, "style": style, "args": args, "N": [1, 3][k % 2], "seed": rng.randint(0, 10 ** 6)}))
+    # L21: 1 x 1 matrices in every parameterisation (dense; sparse 1 x 1 may be refused)
+    for form in ("sqrtprec", "cov", "prec", "sqrtcov"):
+        for fmt in (None, "csr"):
+            meta = {"op": "l4_zeros", "form": form, "shape": "1x1", "sparse_input": bool(fmt), "sparse_format": fmt, "dim": 1, "value": [[rng.choice([4.0, 0.25, 9.0])]],
+                    "mean": [dy(rng)], "mean_kind": "vector", "iface": "rng", "may_refuse_ctor": bool(fmt)}
+            cases.append(zeros_or_refused(ctx, meta))
+    # L22: GMRF with its shipped defaults (bc_type, order not given)
+    cases.extend(gmrf_case(ctx, {"op": "gmrf", "bc": "zero", "order": 1, "dim": 5, "two_d": False, "prec": 2.0, "mean": [dy(rng) for _ in range(5)],
+                                 "iface": "rng", "z": [dy(rng, -2, 2) for _ in range(30)], "defaults": True}))
+    # L25
+    for kind in ("Lognormal", "Gaussian-copy", "Gaussian-conditioned"):
+        cases.append(shallow_copy_case(ctx, {"op": "l4_copy", "kind": kind, "m1": [0.0, 1.0], "m2": [5.0, 5.0] if kind != "Gaussian-copy" else [2.0, -3.0],
+                                             "c1": 1.0, "c2": 4.0, "z": [dy(rng, -2, 2) for _ in range(2)]}))
+    # L26: large offsets
+    for fam in ("Normal", "Laplace", "Cauchy", "Uniform"):
+        ps = rand_params(rng, fam, "vector", 2)
+        ps = [(np.array(p) + 2.0 ** 20).tolist() if (i == 0 or fam == "Uniform") and isinstance(p, list) else p for i, p in enumerate(ps)]
+        cases.append(wiring_case(ctx, {"op": "wiring", "family": fam, "form": "vector", "dim": 2, "N": 2, "params": ps,
+                                       "G": [[2.0 ** 20 + rng.randint(1, 63) / 64 for _ in range(2)] for _ in range(2)], "iface": "rng", "xseed": rng.randint(0, 10 ** 6),
+                                       "big_offset": True}))
+    for shape in ("upper", "lower", "diag"):
+        n = 3
+        cases.append(gaussian_exact_case(ctx, {"op": "gauss_exact", "form": "sqrtprec", "shape": shape, "sparse_input": False, "sparse_format": None, "dim": n,
+                                               "value": exact_matrix(rng, n, shape).tolist(), "mean": [2.0 ** 20 * rng.choice([1, -3, 5]) + dy(rng) for _ in range(n)],
+                                               "mean_kind": "vector", "iface": "rng", "Z": [[rng.randint(-8, 8) / 4 for _ in range(n)] for _ in range(n)]}))
+
+
+def zeros_or_refused(ctx, meta):
+    if meta.get("may_refuse_ctor"):
+        try:
+            build_gaussian(meta)
+        except Exception:
+            return Case(expr="true", meta=meta, cell="L18-exact-zeros/refused-by-constructor", trivial=True, kind="DECISION")
+    return zeros_case(ctx, meta)
+
+
+# ------------------------------------------------------------------------------------------------
 # translator stage: coq/gen/Gen_C05.v, re-proved on every run
 # ------------------------------------------------------------------------------------------------
 def translator_stage(ctx):
@@ -2159,6 +2584,7 @@ def run(ctx):
         wrapper_cases(ctx, cases)
         conditional_cases(ctx, cases)
         history_cases(ctx, cases)
+        lessons4_cases(ctx, cases)
         rng_cases(ctx, cases, sites)      # also when the translator failed (no sites): the behavioural clauses still find failing inputs
         mhn_cases(ctx, cases)
     finally:
@@ -2217,6 +2643,10 @@ REBUILD = {"gaussian": lambda ctx, m: [gaussian_case(ctx, m)], "lognormal": lamb
            "wrap": lambda ctx, m: [wrapper_case(ctx, m)], "wrap_defect": lambda ctx, m: [wrapper_defect_case(ctx, m)],
            "cond": lambda ctx, m: [conditional_case(ctx, m)], "rng": lambda ctx, m: [rng_case(ctx, m)],
            "mhn": lambda ctx, m: [mhn_case(ctx, m)], "mhn_public": lambda ctx, m: [mhn_public_case(ctx, m)],
+           "l4_lifecycle": lambda ctx, m: [lifecycle_case(ctx, m)], "l4_alias": lambda ctx, m: [alias_time_case(ctx, m)],
+           "l4_alias_uni": lambda ctx, m: [alias_time_uni_case(ctx, m)], "l4_zeros": lambda ctx, m: [zeros_or_refused(ctx, m)],
+           "l4_udd": lambda ctx, m: [udd_buffer_case(ctx, m)], "l4_twin": lambda ctx, m: [int_twin_case(ctx, m)],
+           "l4_copy": lambda ctx, m: [shallow_copy_case(ctx, m)],
            "mhn_helper": lambda ctx, m: [mhn_helper_case(ctx, m)], "gauss_exact": lambda ctx, m: [gaussian_exact_case(ctx, m)], "entry": lambda ctx, m: [entry_case(ctx, m)],
            "hist_gauss": lambda ctx, m: [gaussian_history_case(ctx, m)], "hist_gmrf": lambda ctx, m: [gmrf_history_case(ctx, m)],
            "hist_uni": lambda ctx, m: [univariate_history_case(ctx, m)], "hist_lognormal": lambda ctx, m: [lognormal_history_case(ctx, m)]}
